@@ -57,6 +57,7 @@ macro_rules! dispatch {
             "C16" => $f(&props::c16::C16, $($arg),*),
             "C11" => $f(&props::c11::C11, $($arg),*),
             "C18" => $f(&props::c18::C18, $($arg),*),
+            "C17" => $f(&props::c17::C17, $($arg),*),
             _ => {
                 eprintln!("unknown property {}", $id);
                 2
